@@ -75,11 +75,14 @@ def Event.capturing (e : Event) (w : World) : Prop :=
   e.hook = .lanIngress ∨
   (e.hook = .wanEgress ∧ e.skb.ingressIf = 0 ∧ (pidIsControlPlane (e.pre w) e.skb).isCp = false)
 
+/-- the fate decision `d` earns on a hook -/
+def hookFate (h : Hook) (w : World) (s : Skb) (p : Pkt) (d : Dec) : Fate :=
+  match h with
+  | .lanIngress => lanFate w s p d
+  | _ => wanFate w s p d
+
 /-- the fate decision `d` earns on the event's hook -/
-def Event.fate (e : Event) (w : World) (p : Pkt) (d : Dec) : Fate :=
-  match e.hook with
-  | .lanIngress => lanFate (e.pre w) e.skb p d
-  | _ => wanFate (e.pre w) e.skb p d
+def Event.fate (e : Event) (w : World) (p : Pkt) (d : Dec) : Fate := hookFate e.hook (e.pre w) e.skb p d
 
 /-- every capturing frame of flow `k` in the run gets the fate of decision `d`, and the rule
 program in force at that moment has no influence on what happens -/
